@@ -212,6 +212,42 @@ def bounded(tier, seed):
                                 "effective": str(got)})
         finally:
             shutil.rmtree(d, ignore_errors=True)
+    # the nearest config file wins whatever its kind: every (outer kind, inner kind) pair, inner adjacent or two levels down
+    names = {".flowmark.toml": "width = %d\n", "flowmark.toml": "width = %d\n", "pyproject.toml": "[tool.flowmark]\nwidth = %d\n"}
+    for outer in names:
+        for inner in names:
+            for gap in (0, 1):
+                d = scratch_dir("vf-c16-")
+                try:
+                    top = os.path.join(d, "top")
+                    mid = os.path.join(top, "mid") if gap else top
+                    work = os.path.join(mid, "work")
+                    os.makedirs(work)
+                    open(os.path.join(top, outer), "w").write(names[outer] % 41)
+                    open(os.path.join(work, inner), "w").write(names[inner] % 47)
+                    open(os.path.join(work, "doc.md"), "w").write("x\n")
+                    rc, eff, err = observe(["."], work)
+                    evals += 1
+                    if eff.get("width") != 47:
+                        violations.append({"clause": "nearest_config_wins", "input": {"outer": outer, "inner": inner, "levels_between": gap},
+                                           "got": eff.get("width"), "want": 47})
+                finally:
+                    shutil.rmtree(d, ignore_errors=True)
+    # --list-files lists what a formatting run would take: the file-discovery keys of the config file apply to it as well
+    for setting in ("exclude", "extend_exclude", "extend_include", "respect_gitignore", "force_exclude", "files_max_size", "include"):
+        d = scratch_dir("vf-c16-")
+        try:
+            work = os.path.join(d, "proj")
+            os.makedirs(work)
+            open(os.path.join(work, "doc.md"), "w").write("x\n")
+            write_config(work, "flat-snake", {setting: S[setting][2]})
+            rc, eff, err = observe(["--list-files", "."], work)
+            evals += 1
+            if eff.get(setting, "<not passed>") != S[setting][2] or rc != 0:
+                violations.append({"clause": "list_files_uses_config", "input": {"setting": setting, "argv": ["--list-files", "."]},
+                                   "got": eff.get(setting, "<not passed>"), "want": S[setting][2], "rc": rc})
+        finally:
+            shutil.rmtree(d, ignore_errors=True)
     # search order inside one directory and unknown-key warning
     d = scratch_dir("vf-c16-")
     try:
@@ -236,7 +272,7 @@ def bounded(tier, seed):
         shutil.rmtree(d, ignore_errors=True)
     evals += effect_same_as_flag(violations, ["flat-snake", "sectioned-kebab", "pyproject-kebab"])
     return {"evaluations": evals, "distinct_nontrivial": len(distinct), "violations": violations, "samples": samples,
-            "rule": "(also, end to end on the output bytes of an option-sensitive document: each formatting key set in a config file "
+            "rule": "(also: nearest config file wins for all 9 kind pairs, adjacent or one level apart; --list-files honours the discovery keys of the config) (also, end to end on the output bytes of an option-sensitive document: each formatting key set in a config file "
                     "gives the same output as the equivalent flag, and a different one from no setting) 13 settings x {flag given, not} x {config sets, not} x {--auto, not} (+ flag passed with its default value) "
                     "x config kind {.flowmark.toml flat snake, flowmark.toml sectioned kebab, pyproject [tool.flowmark], parent "
                     "directory with a section-less pyproject nearer}; quick rotates the kind, thorough takes all; observed at the "
